@@ -45,6 +45,12 @@ REG = {
                 text="Generated (P, breaking M(P)) pairs; the model knows which interfaces a mutation touches, so a silent or mis-attributed report is detected; exploration only.", note=_T1),
     "C06": dict(engine="progfuzz", technique="property-based testing (Hypothesis program pairs, expected silence both argument orders)",
                 text="Generated (P, neutral N(P)) pairs must compare clean in both orders; exploration only.", note=_T1),
+    "C14": dict(engine="progfuzz", technique="property-based testing (metamorphic: same command under 4 environments - ASLR on/off, MALLOC_PERTURB_, arena count, cwd - must give byte-identical output)",
+                text="Six abidw/abidiff/abipkgdiff commands per generated pair, each run under four environment perturbations; byte equality of stdout and equal status; exploration only (only the perturbations listed are provoked).", note=_T1),
+    "C18": dict(engine="progfuzz", technique="property-based testing (differential against readelf: multiset of symbol attributes and alias groups)",
+                text="Generated binaries (shared/PIE/exe/relocatable, bfd/lld, aliases, weak, IFUNC, TLS, common, versions, with/without -g); abidw's symbol tables must equal readelf's public defined function/data symbols attribute by attribute; exploration only.", note=_T1),
+    "C19": dict(engine="progfuzz", technique="property-based testing (generated pairs of debug-info-less binaries; oracle: set difference of readelf symbol sets under the documented re-export rule)",
+                text="Generated stripped pairs with additions, removals, alias/binding/version changes; reported removed/added symbols must equal readelf's set difference, removal => INCOMPATIBLE, equal sets => exit 0; one recorded defect (alias additions) is a known finding; exploration only.", note=_T1),
     "C38": dict(engine="apicheck", technique="exhaustive small-scope enumeration + rapidcheck against a reference LCS",
                 text="All pairs of sequences up to length 6 (quick) / 8 (thorough) over 3 letters are enumerated (exhaustive for that scope) and random long sequences with non-trivial predicates are sampled; oracle is an independent O(nm) LCS.", note=_T2),
     "C39": dict(engine="apicheck", technique="rapidcheck round-trip (config->text->config and text->config->text->config)",
@@ -53,6 +59,8 @@ REG = {
                 text="Random well-formed names and strings compared with one-line reference definitions; exploration only.", note=_T2),
     "C42": dict(engine="apicheck", technique="rapidcheck model-based test (std::string as reference model)",
                 text="Random string multisets interned in one pool; every pairwise operator compared with std::string; exploration only.", note=_T2),
+    "C43": dict(engine="progfuzz", technique="property-based testing (metamorphic: same sources, same compiler and codegen flags, two debug-info configurations => abidiff silent in both orders)",
+                text="Generated programs compiled under pairs of debug-info configurations (DWARF 4/5, column info, strict DWARF, type units); type-unit cases are a recorded known finding kept to 15% of the cases; exploration only.", note=_T1),
 }
 for e in ENGINES:
     e["serves_properties"] = sorted(k for k, v in REG.items() if v["engine"] == e["name"])
